@@ -16,7 +16,7 @@ E2_ASSUME = [
 
 PROPS_ADD = {
     "C32": {
-        "engine": "unitsim", "level": "exploration", "budget": {"quick": 20, "thorough": 600},
+        "engine": "unitsim", "level": "exploration", "budget": {"quick": 15, "thorough": 600},
         "title": "The watermark never passes an unfinished index",
         "technique": "deterministic simulation: 2-4 tasks issue Begin/BeginMany/Done/DoneMany/WaitForMark on a real utils.WaterMark with a 2-8 slot window; seeded scheduler interleaves them at every atomic step; invariants checked after every scheduler step",
         "rule": "case = seeded op lists for 2-4 tasks + window size + scheduler stickiness; after every scheduler step: DoneUntil monotone, DoneUntil < every begun-and-unfinished index, a returned WaitForMark(i) saw no unfinished index <= i; distinct = distinct event-trace hash (includes the schedule); non-trivial = at least two tasks were inside watermark calls at the same time",
@@ -47,7 +47,7 @@ PROPS_ADD = {
         "stub": ["disk = real directory on /dev/shm behind SimFS"],
     },
     "C27": {
-        "engine": "unitsim", "level": "exploration", "budget": {"quick": 15, "thorough": 600},
+        "engine": "unitsim", "level": "exploration", "budget": {"quick": 20, "thorough": 600},
         "title": "PD timestamps and IDs are unique and increasing across restarts",
         "technique": "deterministic simulation: 2-4 tasks call Tso/AllocID on a real pd/server.Service persisting through pd/storage.LocalStore on SimFS; scheduling points before/after the counters are read, at the checkpoint mutex and at the checkpoint WriteFile/Rename; process-crash images at chosen FS events and at the end are restarted as cmd/nokv pd does and allocation continues",
         "rule": "case = seeded Tso/AllocID calls (count 1-3) for 2-4 tasks + warm-up lifetime + up to 3 crash-image positions + scheduler stickiness; oracle: values of a lifetime are distinct and respect real-time order of calls; every value handed out after restarting an image is greater than every value whose response had been returned before the image instant; distinct = distinct event-trace hash (includes the schedule); non-trivial = at least two calls were in progress at the same time",
